@@ -5,6 +5,7 @@ import (
 	"encoding/hex"
 	"fmt"
 	"net"
+	"os"
 	"strings"
 	"sync"
 	"time"
@@ -131,7 +132,28 @@ func showDelivered(ms []*entities.Message) string {
 	return sb.String()
 }
 
-// runOne runs one case against a fresh collector.
+// slowFactor stretches every timing-dependent wait when bin/check re-runs a disagreeing case
+// (VERIF_SLOW=1): a verdict must not depend on machine load.
+func slowFactor() time.Duration {
+	if os.Getenv("VERIF_SLOW") != "" {
+		return 12
+	}
+	return 1
+}
+
+// waitConns polls until the collector reports n connections (or the ceiling passes).
+func waitConns(cp *collector.CollectingProcess, n int64, ceiling time.Duration) bool {
+	deadline := time.Now().Add(ceiling)
+	for cp.GetNumConnToCollector() != n {
+		if time.Now().After(deadline) {
+			return false
+		}
+		time.Sleep(200 * time.Microsecond)
+	}
+	return true
+}
+
+// c11Run runs one case against a fresh collector.
 func c11Run(stream []byte, cuts []int) string {
 	cp, d, stop := startCollector("tcp", collector.DecodingModeStrict)
 	defer stop()
@@ -140,41 +162,33 @@ func c11Run(stream []byte, cuts []int) string {
 	if err != nil {
 		return "dial-error"
 	}
+	if !waitConns(cp, 1, 10*time.Second) { // accepted and registered before anything is sent
+		return "not-registered"
+	}
 	tc := conn.(*net.TCPConn)
 	tc.SetNoDelay(true)
 	prev := 0
-	werr := false
 	for _, c := range append(append([]int{}, cuts...), len(stream)) {
 		if c > prev {
 			if _, err := conn.Write(stream[prev:c]); err != nil {
-				werr = true
 				break
 			}
 			prev = c
 			time.Sleep(300 * time.Microsecond)
 		}
 	}
-	_ = werr
-	// did the collector close the connection by itself (decode error)?
-	closed := false
-	conn.SetReadDeadline(time.Now().Add(150 * time.Millisecond))
+	// did the collector close the connection by itself (decode error)? It does so within
+	// microseconds of reading the offending frame; an open connection stays registered.
+	closed := waitConns(cp, 0, 250*time.Millisecond*slowFactor())
 	one := make([]byte, 1)
-	if _, err := conn.Read(one); err != nil {
-		if ne, ok := err.(net.Error); !(ok && ne.Timeout()) {
-			closed = true
-		}
-	}
 	if !closed {
 		// half-close: the reader sees EOF after consuming everything, then closes
 		tc.CloseWrite()
-		conn.SetReadDeadline(time.Now().Add(3 * time.Second))
+		conn.SetReadDeadline(time.Now().Add(10 * time.Second))
 		conn.Read(one)
 	}
 	conn.Close()
-	// wait until the collector has dropped the connection (all deliveries done)
-	for i := 0; cp.GetNumConnToCollector() != 0 && i < 3000; i++ {
-		time.Sleep(time.Millisecond)
-	}
+	waitConns(cp, 0, 10*time.Second) // all deliveries of this connection are done
 	d.mu.Lock()
 	first := append([]*entities.Message{}, d.msgs...)
 	d.msgs = nil
@@ -183,15 +197,15 @@ func c11Run(stream []byte, cuts []int) string {
 	other := "bad"
 	c2, err := net.Dial("tcp", addr)
 	if err == nil {
-		c2.Write(tplMsg(777, 0, 300, c11Template))
-		c2.Write(dataMsgSeq(777, 1, 300, make([]byte, 14)))
+		waitConns(cp, 1, 10*time.Second)
+		for _, m := range c11Other() {
+			c2.Write(m)
+		}
 		c2.(*net.TCPConn).CloseWrite()
-		c2.SetReadDeadline(time.Now().Add(3 * time.Second))
+		c2.SetReadDeadline(time.Now().Add(10 * time.Second))
 		c2.Read(one)
 		c2.Close()
-		for i := 0; cp.GetNumConnToCollector() != 0 && i < 3000; i++ {
-			time.Sleep(time.Millisecond)
-		}
+		waitConns(cp, 0, 10*time.Second)
 		d.mu.Lock()
 		if len(d.msgs) == 2 {
 			other = "ok"
@@ -201,26 +215,47 @@ func c11Run(stream []byte, cuts []int) string {
 	return fmt.Sprintf("%s closed=%s other=%s", showDelivered(first), ShowBool(closed), other)
 }
 
-func c11Case(stream []byte, cuts []int) string {
-	cs := make([]string, len(cuts))
-	for i, c := range cuts {
-		cs[i] = fmt.Sprint(c)
-	}
-	return fmt.Sprintf("C11 cuts %d %s stream %s", len(cuts), strings.Join(cs, " "), hex.EncodeToString(stream))
+// the two messages a second connection sends after the first one is finished
+func c11Other() [][]byte {
+	return [][]byte{tplMsg(777, 0, 300, c11Template), dataMsgSeq(777, 1, 300, make([]byte, 14))}
 }
 
-func parseC11(t []string) ([]byte, []int) {
-	// t: cuts k c1..ck stream hex
+func joinInts(xs []int) string {
+	cs := make([]string, len(xs))
+	for i, c := range xs {
+		cs[i] = fmt.Sprint(c)
+	}
+	if len(cs) == 0 {
+		return ""
+	}
+	return " " + strings.Join(cs, " ")
+}
+
+func c11Case(stream []byte, cuts []int, lens []int) string {
+	o := c11Other()
+	return fmt.Sprintf("C11 cuts %d%s msgs %d%s other %s %s stream %s", len(cuts), joinInts(cuts), len(lens), joinInts(lens),
+		hex.EncodeToString(o[0]), hex.EncodeToString(o[1]), hex.EncodeToString(stream))
+}
+
+func parseC11(t []string) ([]byte, []int, []int) {
+	// t: cuts k c1..ck msgs m l1..lm other h1 h2 stream hex
 	k := atoi(t[1])
 	cuts := make([]int, k)
 	for i := 0; i < k; i++ {
 		cuts[i] = atoi(t[2+i])
 	}
-	b, err := hex.DecodeString(t[3+k])
+	t = t[2+k:]
+	m := atoi(t[1])
+	lens := make([]int, m)
+	for i := 0; i < m; i++ {
+		lens[i] = atoi(t[2+i])
+	}
+	t = t[2+m:]
+	b, err := hex.DecodeString(t[4])
 	if err != nil {
 		panic(err)
 	}
-	return b, cuts
+	return b, cuts, lens
 }
 
 func runC11(env *Env) {
@@ -229,6 +264,7 @@ func runC11(env *Env) {
 		stream []byte
 		cuts   []int
 		class  string
+		lens   []int
 	}
 	jobs := []job{}
 	if len(env.Replay) > 0 {
@@ -240,8 +276,8 @@ func runC11(env *Env) {
 					break
 				}
 			}
-			s, c := parseC11(t[1:])
-			jobs = append(jobs, job{s, c, "replay"})
+			s, c, l := parseC11(t[1:])
+			jobs = append(jobs, job{s, c, "replay", l})
 		}
 	} else {
 		r := env.Rng
@@ -293,13 +329,18 @@ func runC11(env *Env) {
 		valid := []string{"T", "D", "D", "T2", "D2", "D"}
 		invalid := []string{"Xver", "Xnotpl", "Xshort", "Xbadtpl", "Lzero"}
 		lying := []string{"Llong", "Lshort"}
+		var lastLens []int
 		mkStream := func(kinds []string) []byte {
 			s := []byte{}
+			lastLens = nil
 			for i, k := range kinds {
-				s = append(s, mk(k, uint32(i))...)
+				m := mk(k, uint32(i))
+				lastLens = append(lastLens, len(m))
+				s = append(s, m...)
 			}
 			return s
 		}
+		lensCopy := func() []int { return append([]int{}, lastLens...) }
 		randKinds := func(n int, badAt int, bad string) []string {
 			ks := []string{"T"}
 			for i := 1; i < n; i++ {
@@ -326,13 +367,14 @@ func runC11(env *Env) {
 		}
 		// (1) one short stream: every single cut point; thorough: every double cut as well
 		base := mkStream([]string{"T", "D", "D"})
+		baseLens := lensCopy()
 		for c := 1; c < len(base); c++ {
-			jobs = append(jobs, job{base, []int{c}, "single-cut"})
+			jobs = append(jobs, job{base, []int{c}, "single-cut", baseLens})
 		}
 		if env.Thorough() {
 			for a := 1; a < len(base); a++ {
 				for b := a + 1; b < len(base); b += 1 {
-					jobs = append(jobs, job{base, []int{a, b}, "double-cut"})
+					jobs = append(jobs, job{base, []int{a, b}, "double-cut", baseLens})
 				}
 			}
 		}
@@ -341,8 +383,8 @@ func runC11(env *Env) {
 			for pos := 0; pos < 4; pos++ {
 				ks := randKinds(4, pos, bad)
 				s := mkStream(ks)
-				jobs = append(jobs, job{s, nil, "invalid/" + bad + "/uncut"})
-				jobs = append(jobs, job{s, randCuts(len(s), 1+r.Intn(6)), "invalid/" + bad + "/cuts"})
+				jobs = append(jobs, job{s, nil, "invalid/" + bad + "/uncut", lensCopy()})
+				jobs = append(jobs, job{s, randCuts(len(s), 1+r.Intn(6)), "invalid/" + bad + "/cuts", lensCopy()})
 			}
 		}
 		// (3) random valid streams with random multi-cuts (long ones too)
@@ -353,21 +395,22 @@ func runC11(env *Env) {
 		for i := 0; i < nrand; i++ {
 			ks := randKinds(2+r.Intn(8), -1, "")
 			s := mkStream(ks)
-			jobs = append(jobs, job{s, randCuts(len(s), r.Intn(12)), "valid/multi-cut"})
+			jobs = append(jobs, job{s, randCuts(len(s), r.Intn(12)), "valid/multi-cut", lensCopy()})
 		}
 		// byte-by-byte delivery
 		s := mkStream([]string{"T", "D"})
+		sLens := lensCopy()
 		all := []int{}
 		for c := 1; c < len(s); c++ {
 			all = append(all, c)
 		}
-		jobs = append(jobs, job{s, all, "valid/byte-by-byte"})
+		jobs = append(jobs, job{s, all, "valid/byte-by-byte", sLens})
 		// (4) lying length fields (outside the theorem's frame hypothesis: correspondence only)
 		for _, bad := range lying {
 			for pos := 1; pos < 3; pos++ {
 				ks := randKinds(4, pos, bad)
 				s := mkStream(ks)
-				jobs = append(jobs, job{s, randCuts(len(s), r.Intn(4)), "lying/" + bad})
+				jobs = append(jobs, job{s, randCuts(len(s), r.Intn(4)), "lying/" + bad, lensCopy()})
 			}
 		}
 	}
@@ -387,6 +430,6 @@ func runC11(env *Env) {
 	wg.Wait()
 	for i, j := range jobs {
 		env.Count(j.class)
-		env.Emit(c11Case(j.stream, j.cuts), res[i])
+		env.Emit(c11Case(j.stream, j.cuts, j.lens), res[i])
 	}
 }
